@@ -443,7 +443,7 @@ for _prop in ("C01", "C02"):
 # ----------------------------------------------------------------------------- Gaussian sampler (C01/C02)
 GAUSS = "torchphysics.problem.samplers.random_samplers.GaussianSampler"
 
-for _prop in ("C01", "C02"):
+for _prop in ("C01", "C02", "C11"):
     def _gauss(S, _prop=_prop):
         """GaussianSampler: proposals from a normal law (arbitrary reals), filtered by the domain's own _contains,
         accumulated per parameter row until n points, cut to n.  Nested loops under contract (partial correctness):
@@ -462,11 +462,27 @@ for _prop in ("C01", "C02"):
         fq = GAUSS + "._sample_points"
         S.loop(fq, 0, acc_points_loop(S, "sample_points", keys, su.n, ncols, lambda k, j, row: Pk(k, row), "parameter-loop"))
         S.loop(fq, 1, filtered_points_loop(S, "new_sample_points", "current_num_of_points", {"new_points": lambda: None}, keys, ncols, Pk, "proposal-loop", lambda env: zint(env.lookup("i")[1])))
-        smp = S.once(lambda: S.new(GAUSS, su.dom.obj, su.n, [S.real("m0"), S.real("m1")], S.real("std")))
+        mean = S.once(lambda: [S.real("m0"), S.real("m1")])
+        smp = S.once(lambda: S.new(GAUSS, su.dom.obj, su.n, list(mean), S.real("std")))
+        if _prop == "C11":
+            # per-call clause of 'the Gaussian sampler follows N(mean, std^2 I)': every proposal is an [n, dim] table of
+            # variates, one OWN variate per coordinate -- it must NOT be derivable that the deviations of two
+            # coordinates of a proposal from their means coincide (one draw broadcast to all coordinates)
+            def on_filter(rec):
+                t = rec["new_points"].f["_t"].val
+                ok = t.rank == 2 and t.shape[0].size_term() is not None and (t.shape[1].concrete() or 0) >= 2
+                S.ensure("proposals-are-a-table-rows-by-coordinates", ok and I_entails_eq(S, t.shape[0].size_term(), zint(su.n)))
+                if ok:
+                    r = z3.Int("proposal_row")
+                    S.canary("all-coordinates-of-a-proposal-share-one-variate", zreal(t.at([(r,), (0,)])) - mean[0].t == zreal(t.at([(r,), (1,)])) - mean[1].t, [r >= 0, r < zint(su.n)])
+
+            S.on_call(GAUSS + "._check_inside_domain", on_filter)
+            S.ctx.ghost["assumed_lemmas"].pop()
         pts = S.method(smp, "sample_points", su.params)
-        su.check(S, _prop, pts)
-    _gauss.__name__ = "gaussian_sampler"
-    scenario(_prop, [GAUSS + "._sample_points", GAUSS + "._check_inside_domain", GAUSS + ".__init__", GAUSS + "._check_mean_correct_dim", PS + "._set_sampled_points", PS + "._cut_tensor_to_length_n"], configs=CFG, history=["indep/K", "dep/K"])(_gauss)
+        if _prop != "C11":
+            su.check(S, _prop, pts)
+    _gauss.__name__ = "gaussian_sampler" if _prop != "C11" else "gaussian_sampler_draws_an_own_variate_for_every_coordinate"
+    scenario(_prop, [GAUSS + "._sample_points", GAUSS + "._check_inside_domain", GAUSS + ".__init__", GAUSS + "._check_mean_correct_dim", PS + "._set_sampled_points", PS + "._cut_tensor_to_length_n"], configs=CFG if _prop != "C11" else ["indep/none"], history=["indep/K", "dep/K"] if _prop != "C11" else None)(_gauss)
 
 
 # ----------------------------------------------------------------------------- Latin hypercube sampler (C01/C02)
@@ -494,6 +510,10 @@ for _prop in ("C01", "C02"):
         su.check(S, _prop, pts)
     _lhs.__name__ = "lhs_sampler"
     scenario(_prop, [LHS + "._sample_points", LHS + "._create_lhs_in_bounding_box", LHS + "._check_lhs_inside", LHS + "._append_random_points", RUS + "._sample_points"], configs=CFG, history=["indep/K", "dep/K"])(_lhs)
+
+
+def I_entails_eq(S, a, b):
+    return S.ctx.entails(a == b)
 
 
 def _lhs_strata_box(S):
